@@ -123,14 +123,14 @@ CHECKS["C08"] = dict(
          "of <= 6 (quick) / 7 (thorough) nodes over variable, lambda, pi, application, let (groups via nested lets), with every binder/occurrence/context name "
          "symbolic over {_, a, b}; the solver decides which names coincide. Oracle: an independent named-scope resolver. Obligations: rejected iff an unbound "
          "name or re-binding exists; unbound occurrences reported once at their identifier; on success all indices/holes equal the reference, the name map is "
-         "unchanged, the parser-output invariants hold.",
+         "unchanged, the parser-output invariants hold. The parenthesised flag of every let node is a symbolic Boolean (it must not influence scoping or the flattening of nested lets).",
     note="Trusted: executor + models (validated against the compiled resolve_variables), the reference resolver, z3. Identifier spelling is C09's part.",
     ref="DESIGN.md 4 (C08)")
 CHECKS["C13"] = dict(
     text="Determinism as an explored choice: in the executor every iteration over a RandomState hash container visits its elements in an order chosen by the "
          "search; check_definitions is run twice with independent orders on symbolic definition groups (2-3 definitions quick, up to 4 thorough; which definition "
          "mentions which is symbolic) and z3 decides that the diagnostic sequences are identical; the rest of the pipeline must not iterate a hash container at "
-         "all. The defect this found was repaired (fix: 951bf89); counterexamples are confirmed by 60 native runs with fresh hash keys.",
+         "all. The defect this found was repaired (fix: 951bf89); counterexamples are confirmed by 60 native runs with fresh hash keys. D3: tokenize run twice on symbolic texts of 2-3 characters with at least two unexpected symbols, independent iteration orders for every hash container: same diagnostics in the same order.",
     note="Trusted: executor + models, z3. Process-level variation (environment, colour settings, separate launches) is outside the encoding.",
     ref="DESIGN.md 4 (C13)")
 
